@@ -151,6 +151,8 @@ LApply(v, o, q) ==
     [] o.op = "reindexed"   -> LReindexed(v, o.args)
     [] o.op = "blocked"     -> LBlocked(v, o.args[1], o.args[2], q)
     [] o.op = "stenciled"   -> LStenciled(v, o.args, q)
+    [] o.op = "tiled_q"     -> LChunked(LTaked(v, LSize(v.lay) - (LSize(v.lay) % o.args[1])), o.args[1])
+    [] o.op = "tiled_r"     -> LDropped(v, LSize(v.lay) - (LSize(v.lay) % o.args[1]))
     [] o.op = "range"       -> LSliced(v, o.args[1], o.args[2], q)
     [] o.op = "front"       -> LIndex(v, LFirstD(v.lay[1]))
     [] o.op = "back"        -> LIndex(v, LFirstD(v.lay[1]) + LSize(v.lay) - 1)
